@@ -21,7 +21,8 @@ import (
 // Start: A and B associated; s1 on A with URR 1 (VOLUM, MNOP, periodic), 2 (DURAT), 3 (VOLUM+DURAT), 4 (EVENT);
 // s2 on B with URR 1 (VOLUM, no MNOP, periodic). Both sessions use CP SEID 0x10.
 // Structural events (expanded by the search): Tick, Query/Remove/Update URR (update answered with or without
-// a report, changing method and MNOP), Deletion, re-establishment.
+// a report, changing method and MNOP; and an update naming neither, which must leave the profile alone),
+// Deletion, re-establishment.
 // In every reached state a batch sweep (not expanded: reports only advance UR-SEQN and add outstanding
 // requests) delivers kernel REPORT notifications of every batch shape: 1..3 reports over {live, unknown, ended}
 // sessions x {known, unknown, removed} URRs in every arrangement, each of the 17 single-cause triggers,
@@ -149,6 +150,10 @@ func (c *c10) Enabled() []seqx.Event {
 		if _, ok := s.urr[2]; ok && p == 0 {
 			ev = append(ev, nm(seqx.Ev("Update", int64(p), 2, 0), "UpdateURR(s%d,2 -> VOLUM+DURAT+MNOP; no report)", s.k))
 			ev = append(ev, nm(seqx.Ev("Update", int64(p), 2, 1), "UpdateURR(s%d,2 -> VOLUM+DURAT+MNOP; with report)", s.k))
+		}
+		if _, ok := s.urr[1]; ok && p == 0 {
+			// an update that names neither Measurement Method nor Measurement Information: the URR keeps its profile
+			ev = append(ev, nm(seqx.Ev("Update", int64(p), 1, 2), "UpdateURR(s%d,1: period only, no method / measurement information IE)", s.k))
 		}
 		ev = append(ev, nm(seqx.Ev("Del", int64(p)), "Del(s%d)", s.k))
 	}
@@ -466,6 +471,9 @@ func (c *c10) Apply(e seqx.Event) seqx.StepResult {
 		case "Update":
 			op = smf.RuleOp{Verb: 'U', Kind: 'U', ID: u, Method: 3, MInfo: 0x10}
 			c.W.K.UpdateURRReports = e.A[2] == 1
+			if e.A[2] == 2 {
+				op = smf.RuleOp{Verb: 'U', Kind: 'U', ID: u, Period: uint32(P1 / time.Second), MInfo: -1}
+			}
 		}
 		o = c.W.Send(p, smf.Mod(c.seq(), s.up, "", op))
 		c.W.K.UpdateURRReports = false
@@ -476,13 +484,13 @@ func (c *c10) Apply(e seqx.Event) seqx.StepResult {
 			j.Fail("mod-not-accepted", "%s not accepted: %v", e, o.Out[p])
 			break
 		}
-		if e.Op == "Update" {
+		if e.Op == "Update" && e.A[2] != 2 {
 			r := s.urr[u]
 			r.volum, r.durat, r.mnop = true, true, true
 		}
 		ws := c.handedFor(trig)
 		wantN := 1
-		if e.Op == "Update" && e.A[2] == 0 {
+		if e.Op == "Update" && e.A[2] != 1 {
 			wantN = 0
 		}
 		if len(ws) != wantN {
